@@ -534,4 +534,67 @@ theorem slice_negative_fails_str (s : String) (i : Int) (h0 : i < 0) (hi : inRan
     sliceV (.str s) (.int .int i) (.int .int ((strBytes s).length : Nat)) = .error .index :=
   sliceV_str_neg s i h0 hi hlen
 
+/-- `x[:i]` at the level of `eval`: the collection, then the bound, then `sliceV` with the default lower
+    bound `0` (for either order in which the code evaluates the two bounds) -/
+theorem eval_slice_prefix (c : SCfg) (ctx : Ctx) (m : Meta) (x i : Node) (s s0 s1 : SState) (a iv : Val)
+    (hx : eval c ctx x s = (.ok a, s0)) (hi : eval c ctx i s0 = (.ok iv, s1)) :
+    eval c ctx (.slice m x none (some i)) s = (sliceV a (.int .int 0) iv, s1) := by
+  rw [eval]
+  cases c.sliceToFirst <;> simp only [SM.bind_apply, hx, hi, SM.pure_apply, if_true, Bool.false_eq_true, if_false] <;>
+    cases sliceV a (.int .int 0) iv <;> rfl
+
+/-- `x[i:]`: the default upper bound is `len x` -/
+theorem eval_slice_suffix (c : SCfg) (ctx : Ctx) (m : Meta) (x i : Node) (s s0 s1 : SState) (a iv : Val) (n : Int)
+    (hx : eval c ctx x s = (.ok a, s0)) (hi : eval c ctx i s0 = (.ok iv, s1)) (hn : lengthV a = .ok n) :
+    eval c ctx (.slice m x (some i) none) s = (sliceV a iv (.int .int n), s1) := by
+  rw [eval]
+  cases c.sliceToFirst <;>
+    simp only [SM.bind_apply, hx, hi, hn, SM.lift_ok, SM.pure_apply, if_true, Bool.false_eq_true, if_false] <;>
+    cases sliceV a iv (.int .int n) <;> rfl
+
+/-- `slice_partitions` on expressions: for an array-valued `x` and a bound evaluating to the int `i ≥ 0`,
+    `x[:i]` and `x[i:]` (two programs from the same start state) succeed with the first `i` elements and
+    the rest, which concatenate to the value of `x`; both end in the same state -/
+theorem slice_partitions_eval (c : SCfg) (ctx : Ctx) (m m' : Meta) (x i : Node) (s s0 s1 : SState)
+    (t : ElemT) (xs : List Val) (iv : Int)
+    (hx : eval c ctx x s = (.ok (.arr t xs), s0)) (hi : eval c ctx i s0 = (.ok (.int .int iv), s1))
+    (h0 : 0 ≤ iv) (hr : inRange .int iv) (hlen : inRange .int (xs.length : Nat)) :
+    ∃ l r, eval c ctx (.slice m x none (some i)) s = (.ok (.arr t l), s1) ∧
+           eval c ctx (.slice m' x (some i) none) s = (.ok (.arr t r), s1) ∧ l ++ r = xs := by
+  refine ⟨xs.take iv.toNat, xs.drop iv.toNat, ?_, ?_, List.take_append_drop _ _⟩
+  · rw [eval_slice_prefix c ctx m x i s s0 s1 _ _ hx hi, sliceV_arr_prefix t xs iv h0 hr]
+  · rw [eval_slice_suffix c ctx m' x i s s0 s1 _ _ _ hx hi rfl, sliceV_arr_suffix t xs iv h0 hr hlen]
+
+/-- ASCII strings: both pieces are strings and concatenate to `s`, for every `i ≥ 0` -/
+theorem slice_partitions_ascii (s : String) (h : IsAscii s) (i : Int) (h0 : 0 ≤ i) (hi : inRange .int i)
+    (hlen : inRange .int ((strBytes s).length : Nat)) :
+    ∃ a b, sliceV (.str s) (.int .int 0) (.int .int i) = .ok (.str a) ∧
+           sliceV (.str s) (.int .int i) (.int .int ((strBytes s).length : Nat)) = .ok (.str b) ∧
+           a ++ b = s := by
+  obtain ⟨a, ha⟩ := strCut_ascii_take s h i.toNat
+  obtain ⟨b, hb⟩ := strCut_ascii_drop s h i.toNat
+  refine ⟨a, b, ?_, ?_, strCut_partition s i.toNat a b ha hb⟩
+  · rw [sliceV_str_prefix s i h0 hi, ha]
+  · rw [sliceV_str_suffix s i h0 hi hlen, hb]
+
+example : IsAscii "hello world" := by
+  unfold IsAscii
+  decide
+
+/-! ### further non-vacuity instances (collection `[5, 6]`, budget 1000) -/
+
+example : (eval c0 [] (.builtin {} "filter" [xs0, .closure {} (.binary {} ">" (.pointer {}) (.int {} 5))]) {}).1
+    = .ok (.arr .iface [.int .int 6]) := rfl
+example : (eval c0 [] (.builtin {} "len" [.builtin {} "filter" [xs0, .closure {} (.bool {} true)]]) {}).1
+    = .ok (.int .int 2) ∧
+    (eval c0 [] (.builtin {} "count" [xs0, .closure {} (.bool {} true)]) {}).1 = .ok (.int .int 2) := ⟨rfl, rfl⟩
+/-- hypotheses of `len_map_ok` / `map_fails_iff` for `map([5, 6], {#})` -/
+example : lengthV (.arr .iface [.int .int 5, .int .int 6]) = .ok 2 ∧
+    seqIdx (bodyAt c0 [] (.arr .iface [.int .int 5, .int .int 6]) (.closure {} (.pointer {}))) (2 : Int).toNat 0
+      { memory := 2, created := 2 } = (.ok [.int .int 5, .int .int 6], { memory := 2, created := 2 }) ∧
+    ((2 : Int) + 2 < c0.budget) := ⟨rfl, rfl, by decide⟩
+/-- a mapper that fails at the second element: `map([5, 6], {1 / (# - 6)})` fails with `divzero` -/
+example : (eval c0 [] (.builtin {} "map" [xs0, .closure {} (.binary {} "/" (.int {} 1)
+      (.binary {} "-" (.pointer {}) (.int {} 6)))]) {}).1 = .error .divzero := rfl
+
 end ExprModel.C18
